@@ -108,3 +108,81 @@ func prepareGenerated(r *runner, prog *MProgram, cfg genConfig, entry func(g *ha
 	}
 	return nil
 }
+
+// prepareStatic generates code for hand-written IDL files (in /verif/harness/<dir>) and copies
+// the hand-written harness file(s) *.go of that directory into the package of `pkgRel`.
+func prepareStatic(r *runner, dir string, idls []string, backend, options, pkgRel string) error {
+	bin := filepath.Join(r.scratch, "thriftgo")
+	cmd := exec.Command("go", "build", "-o", bin, ".")
+	cmd.Dir = "/repo"
+	cmd.Env = r.env
+	if out, err := cmd.CombinedOutput(); err != nil {
+		return fmt.Errorf("building thriftgo from /repo failed: %v\n%s", err, out)
+	}
+	mod := filepath.Join(r.scratch, "mod")
+	idl := filepath.Join(r.scratch, "idl")
+	os.MkdirAll(mod, 0o755)
+	os.MkdirAll(idl, 0o755)
+	src := filepath.Join("/verif/harness", dir)
+	for _, f := range idls {
+		b, err := os.ReadFile(filepath.Join(src, f))
+		if err != nil {
+			return err
+		}
+		os.WriteFile(filepath.Join(idl, f), b, 0o644)
+	}
+	if backend == "" {
+		backend = "go"
+	}
+	opts := "package_prefix=zzgen"
+	if options != "" {
+		opts += "," + options
+	}
+	gen := exec.Command(bin, "-r", "-g", backend+":"+opts, "-o", mod, filepath.Join(idl, idls[0]))
+	gen.Dir = idl
+	gen.Env = r.env
+	if out, err := gen.CombinedOutput(); err != nil {
+		return &violationError{msg: fmt.Sprintf("thriftgo rejected the well-formed corpus (%s:%s): %v\n%s", backend, opts, err, tail(string(out), 1500))}
+	}
+	gomod := "module zzgen\n\ngo 1.20\n\nrequire (\n\tgithub.com/apache/thrift v0.13.0\n\tgithub.com/cloudwego/gopkg v0.2.0\n\tgithub.com/cloudwego/thriftgo v0.0.0\n)\n\nreplace github.com/cloudwego/thriftgo => /repo\n"
+	os.WriteFile(filepath.Join(mod, "go.mod"), []byte(gomod), 0o644)
+	sum, _ := os.ReadFile("/repo/go.sum")
+	os.WriteFile(filepath.Join(mod, "go.sum"), sum, 0o644)
+	rt := filepath.Join(mod, "internal", "zzverifrt")
+	os.MkdirAll(rt, 0o755)
+	b, err := os.ReadFile("/verif/harness/zzrt/zzrt.go")
+	if err != nil {
+		return err
+	}
+	os.WriteFile(filepath.Join(rt, "zzrt.go"), b, 0o644)
+	pkgDir := filepath.Join(mod, pkgRel)
+	if _, err := os.Stat(pkgDir); err != nil {
+		return &violationError{msg: "generator did not create the package directory " + pkgRel}
+	}
+	ents, _ := os.ReadDir(src)
+	for _, ent := range ents {
+		if strings.HasSuffix(ent.Name(), ".go") {
+			b, _ := os.ReadFile(filepath.Join(src, ent.Name()))
+			os.WriteFile(filepath.Join(pkgDir, "zz_"+ent.Name()), b, 0o644)
+		}
+	}
+	r.dir = mod
+	build := exec.Command("go", "build", "./...")
+	build.Dir = mod
+	build.Env = r.env
+	if out, err := build.CombinedOutput(); err != nil {
+		s := string(out)
+		lines := strings.Split(s, "\n")
+		harnessOnly := true
+		for _, l := range lines {
+			if strings.Contains(l, ".go:") && !strings.Contains(l, "zz_") {
+				harnessOnly = false
+			}
+		}
+		if harnessOnly {
+			return fmt.Errorf("harness does not compile against the generated code:\n%s", tail(s, 3000))
+		}
+		return &violationError{msg: "generated code does not compile:\n" + tail(s, 3000)}
+	}
+	return nil
+}
